@@ -121,18 +121,19 @@ def project(st, c):
 
 def classify(steps, c):
     """Trace-level flags for the observers, computed from the behaviour itself (conservatively)."""
-    total = 0
+    permax = {}
     max_ttl = 0
     clients = set()
     for s in steps:
         if s["action"] == "SetBegin":
             cl, k, cost, ttl = s["args"]
             eff = (c["CostFn"] if (cost == 0 and c["CostFn"] != 0) else cost) + c["ItemSize"]
-            total += eff
+            permax[k] = max(permax.get(k, 0), eff)     # at most one value per key is ever accounted
             max_ttl = max(max_ttl, ttl)
         if s["args"] and s["action"] not in ("SweepCheck",) and isinstance(s["args"][0], int) and \
                 s["action"] in ("SetBegin", "DelBegin", "WaitCall", "Get", "GetTTL", "Iter", "SetMaxCost", "ClearCall", "ClosedOp"):
             clients.add(s["args"][0])
+    total = sum(permax.values())
     lowers = any(s["action"] == "SetMaxCost" and s["args"][1] < c["InitMaxCost"] for s in steps)
     ample = total <= min([c["InitMaxCost"]] + list(c["MaxCosts"])) and not lowers
     hashes = [HASHFN[c["HashOf"]](k) for k in c["Keys"]]
